@@ -7,7 +7,7 @@ var ghostBuiltinNames = []string{
 	"seq", "seqOf", "bytesOf", "cat", "cat3", "cat4", "b1", "u16be", "sub", "slen", "sat", "mkseq", "seqEq", "seq0",
 	"sameSlice", "forallKey", "maxAlloc", "ssnap", "sliceSnap", "ssLen", "ssAt", "msnap", "mapSnap", "guardSnap", "guardVal", "guardSlice", "snapHas", "snapGet", "mapHas", "forall", "forallPairs", "forallGrid", "exists", "fresh", "arrayOf", "sameArray", "ite",
 	"evCount", "evHeld", "evIndex", "evArg", "evSlice", "evBytes", "evRet", "evTotal",
-	"holds", "holdsR", "closed", "ownsChan", "onceDone", "sameMap", "isNilFunc", "closureIs", "closureVar", "sameFunc", "dynType", "typeIs",
+	"holds", "holdsR", "closed", "ownsChan", "onceDone", "sameMap", "isNilFunc", "closureIs", "closureVar", "closureVarN", "sameFunc", "dynType", "typeIs",
 	"strBytesEq", "runeOK", "validUTF8", "utf8norm", "utf8normOf", "ovfFree", "unchanged", "fnCode", "readyAt",
 	"chainHas", "errChain", "retryOf", "isRetryErr", "ghostTrue", "splitOf", "joinedLen", "hasByte",
 }
@@ -160,6 +160,9 @@ func closureIs[F any](f F, name string) bool { return true }
 
 // closureVar[T](f, "name", i): the i-th captured variable (a pointer to its cell) of closure f of function name.
 func closureVar[T any, F any](f F, name string, i int) T { var z T; return z }
+
+// closureVarN[T](f, "name", "v"): the captured variable named v (robust against changes of the capture list).
+func closureVarN[T any, F any](f F, name string, v string) T { var z T; return z }
 
 // holds(&x.mu): the caller holds the mutex (write mode); holdsR: at least in read mode.
 // In a requires clause of the function under verification this is how the lock state at entry is declared.
